@@ -137,6 +137,14 @@ def evaluate_tamper(case, res):
                   "detail": f"{[st[0] for st in status]} after: {desc}"})
         case["_tamper_outcome"] = "stuck"
         return v
+    if case["tamper"]["kind"] == "dup-send":
+        # two sends with one (source, destination, tag): every rank got
+        # through verify_distributed_partition although the duplicate is there
+        v.append({"class": "duplicate-send-verified", "rank": None,
+                  "detail": f"{desc[0]}; every rank passed "
+                            "verify_distributed_partition"})
+        case["_tamper_outcome"] = "VERIFIED-WITH-DUPLICATE-SEND"
+        return v
     model = partcheck.check_global([r["partition"] for r in rec])
     cyc = [m for m in model if m["class"] == "global-part-graph-cyclic"]
     ov = distrun.oracle_c08(case["recipe"], res, case.get("iterations", 1))
@@ -423,7 +431,9 @@ def run_stream(task):
         # partition-level faults on the valid program
         for ti in range(ntampers):
             trng = random.Random(f"{seed}:{PROP}:{stream}:{run}:t{ti}")
-            kind = "move-recv" if trng.random() < 0.75 else "add-needed"
+            kk = trng.random()
+            kind = "move-recv" if kk < 0.6 else (
+                "add-needed" if kk < 0.8 else "dup-send")
             # a rank whose partition (as seen in the fault-free run) offers a
             # candidate, if there is one
             ranks = [r for r, p in enumerate(base_parts) if p is not None
